@@ -25,7 +25,9 @@ class NpSym:
     def __init__(self, env=None, hooks=None):
         self.env: dict[str, object] = dict(env or {})
         self.hooks = hooks or {}          # normalised source text -> sympy value
-        self.aranges: dict[str, tuple] = {}
+        self.aranges: dict[str, tuple] = {}       # symbol name -> argument nodes of the np.arange call it stands for
+        self.arange_bounds: dict[str, tuple] = {}  # symbol name -> (lo, hi, step) as sympy values (None where not evaluated)
+        self._arange_of: dict = {}                 # (line, column, text) of a call -> its symbol
 
     def lookup_src(self, e):
         s = src(e)
@@ -55,6 +57,15 @@ class NpSym:
             if src(e) in ("np.pi", "math.pi"):
                 return PI
             if e.attr == "size" and not isinstance(e.value, ast.Call):
+                tracked = self.lookup_src(e.value)
+                if isinstance(tracked, sp.Basic):
+                    # AUDIT: the size of a TRACKED element-wise value built from np.arange calls is not a free unknown
+                    ks = [x for x in tracked.free_symbols if x.name in self.arange_bounds]
+                    if len(ks) == 1 and all(b is not None for b in self.arange_bounds[ks[0].name]):
+                        lo_, hi_, st_ = self.arange_bounds[ks[0].name]
+                        return sp.ceiling((hi_ - lo_) / st_)
+                    if ks:
+                        raise Undecided(f"`{src(e)}`: size of a value built from {len(ks)} ranges")
                 # number of elements of an array the model does not track: an unknown positive integer
                 return Symbol("size_" + "".join(ch if ch.isalnum() else "_" for ch in src(e.value)), integer=True, positive=True)
             raise Undecided(f"unknown attribute `{src(e)}`")
@@ -93,21 +104,42 @@ class NpSym:
         if isinstance(e, ast.Subscript):
             items = e.slice.elts if isinstance(e.slice, ast.Tuple) else [e.slice]
             if all((isinstance(i, ast.Slice) and i.lower is None and i.upper is None and i.step is None) or
-                   (isinstance(i, ast.Constant) and i.value is None) for i in items):
+                   (isinstance(i, ast.Constant) and (i.value is None or i.value is Ellipsis)) or
+                   (isinstance(i, ast.Attribute) and src(i) in ("np.newaxis", "numpy.newaxis")) for i in items):
+                # AUDIT: x[:, None], x[None, :], x[...], x[np.newaxis] select every element: the generic element is unchanged (on
+                # which AXIS it lies is not part of this model)
                 return self.ev(e.value)
             raise Undecided(f"subscript `{src(e)[:50]}`")
         if isinstance(e, ast.Call):
             f = src(e.func)
             name = f.split(".")[-1]
+            if any(isinstance(a, ast.Starred) for a in e.args) or any(k.arg is None for k in e.keywords):
+                raise Undecided(f"star-expanded arguments in `{src(e)[:50]}`")
+            # AUDIT: the one-argument library functions below are read by their FIRST argument: a second positional (`out`) or
+            # any keyword (out=, where=, decimals= ...) changes what is computed or where it goes -> Undecided
+            unary = ("np.sqrt", "sqrt", "math.sqrt", "np.floor", "floor", "np.ceil", "ceil", "np.abs", "abs", "np.exp", "exp",
+                     "np.tanh", "tanh", "np.cos", "cos", "np.sin", "sin")
+            if f in unary and name not in self.env and f not in self.env and (len(e.args) != 1 or e.keywords):
+                raise Undecided(f"call `{src(e)[:50]}`: arguments beyond the operand")
             if f in ("np.sqrt", "sqrt", "math.sqrt"):
                 return sp.sqrt(self.ev(e.args[0]))
             if f in ("np.floor", "floor"):
                 return sp.floor(self.ev(e.args[0]))
-            if f in ("np.round", "np.rint", "round", "np.around") and len(e.args) == 1:
+            if f in ("np.round", "np.rint", "round", "np.around") and len(e.args) == 1 and not e.keywords:
                 return Function("round")(self.ev(e.args[0]))
             if f in ("np.ceil", "ceil"):
                 return sp.ceiling(self.ev(e.args[0]))
-            if f == "len" and len(e.args) == 1 and not isinstance(e.args[0], ast.Call):
+            if f == "len" and len(e.args) == 1 and not e.keywords and not isinstance(e.args[0], ast.Call):
+                # AUDIT: the length of a name the model does not track is an unknown positive integer; the length of a TRACKED
+                # element-wise value is that of the np.arange it is built from (one arange: its length; none or several: Undecided)
+                tracked = self.lookup_src(e.args[0])
+                if isinstance(tracked, sp.Basic):
+                    ks = [x for x in tracked.free_symbols if x.name in self.arange_bounds]
+                    if len(ks) == 1 and all(b is not None for b in self.arange_bounds[ks[0].name]):
+                        lo_, hi_, st_ = self.arange_bounds[ks[0].name]
+                        return sp.ceiling((hi_ - lo_) / st_)
+                    if ks:
+                        raise Undecided(f"`{src(e)[:50]}`: length of a value built from {len(ks)} ranges")
                 return Symbol("size_" + "".join(ch if ch.isalnum() else "_" for ch in src(e.args[0])), integer=True, positive=True)
             if f in ("np.abs", "abs"):
                 return sp.Abs(self.ev(e.args[0]))
@@ -115,44 +147,145 @@ class NpSym:
                 return sp.exp(self.ev(e.args[0]))
             if f in ("np.tanh", "tanh", "np.cos", "cos", "np.sin", "sin") and f.split(".")[-1] not in self.env:
                 return getattr(sp, f.split(".")[-1])(self.ev(e.args[0]))
-            if f in ("np.mod",):
+            if f in ("np.mod", "np.remainder") and len(e.args) == 2 and not e.keywords:
                 a, b = self.ev(e.args[0]), self.ev(e.args[1])
                 return Wrap(a) if sp.simplify(b - 2 * PI) == 0 else Function("mod")(a, b)
-            if f == "np.where" and len(e.args) == 3:
+            if f == "np.where" and len(e.args) == 3 and not e.keywords:
                 return ITE(self.ev(e.args[0]), self.ev(e.args[1]), self.ev(e.args[2]))
             if f in ("np.prod", "np.sum"):
+                # AUDIT: axis / keepdims / dtype only (where=, initial=, out= change the value or its destination)
+                if any(k.arg not in ("axis", "keepdims", "dtype") for k in e.keywords) or not (1 <= len(e.args) <= 2):
+                    raise Undecided(f"call `{src(e)[:50]}`")
                 ax = [k.value for k in e.keywords if k.arg == "axis"]
                 axv = src(ax[0]) if ax else (src(e.args[1]) if len(e.args) > 1 else "all")
                 return (PROD if f == "np.prod" else SUMR)(self.ev(e.args[0]), Symbol("axis" + axv))
             if f == "np.arange":
-                key = "K_" + "_".join(src(a).replace(" ", "") for a in e.args)
-                sym = Symbol("K")
-                self.aranges["K"] = tuple(e.args)
+                # AUDIT: ONE symbol per np.arange call (K for the first, K2, K3 ... for the others): two ranges are two index
+                # variables (they may lie on different axes or have different bounds); the same call (same position and text)
+                # evaluated again is the same symbol.  start= / stop= / step= keywords are not modelled.
+                if any(k.arg != "dtype" for k in e.keywords) or not (1 <= len(e.args) <= 3):
+                    raise Undecided(f"call `{src(e)[:50]}`")
+                pos = (getattr(e, "lineno", None), getattr(e, "col_offset", None), src(e))
+                if pos in self._arange_of:
+                    return self._arange_of[pos]
+                nm = "K" if not self.aranges else f"K{len(self.aranges) + 1}"
+                sym = Symbol(nm)
+                self.aranges[nm] = tuple(e.args)
+                vals = []
+                for a_ in e.args:
+                    try:
+                        vals.append(self.ev(a_))
+                    except Undecided:
+                        vals.append(None)
+                lo_, hi_, st_ = (sp.Integer(0), vals[0], sp.Integer(1)) if len(vals) == 1 else \
+                    (vals[0], vals[1], sp.Integer(1)) if len(vals) == 2 else tuple(vals)
+                self.arange_bounds[nm] = (lo_, hi_, st_)
+                self._arange_of[pos] = sym
                 return sym
             if f == "np.eye":
+                # AUDIT: the diagonal indicator only for the square identity np.eye(n) / np.eye(n, n) (k= shifts the diagonal)
+                if any(k.arg != "dtype" for k in e.keywords) or not (1 <= len(e.args) <= 2) or \
+                        (len(e.args) == 2 and src(e.args[0]) != src(e.args[1])):
+                    raise Undecided(f"call `{src(e)[:50]}`")
                 return DELTA
             if name in self.env and callable(self.env[name]):
+                if e.keywords:
+                    raise Undecided(f"keyword arguments in `{src(e)[:50]}`")
                 return self.env[name](*[self.ev(a) for a in e.args])
             if f in self.env and callable(self.env[f]):
+                if e.keywords:
+                    raise Undecided(f"keyword arguments in `{src(e)[:50]}`")
                 return self.env[f](*[self.ev(a) for a in e.args])
             raise Undecided(f"call `{src(e)[:50]}`")
         raise Undecided(f"expression `{src(e)[:50]}`")
 
+    def _forget(self, key, why):
+        """a tracked value that a statement outside the model may have changed"""
+        if key in self.env and self.env[key] is not None and not callable(self.env[key]):
+            self.env[key] = None
+            self.env["<undecided>" + key] = why
+
+    def _stores(self, node):
+        """source texts of everything a statement (and the statements inside it) assigns"""
+        out = set()
+        for n in ast.walk(node):
+            tg = []
+            if isinstance(n, ast.Assign):
+                tg = n.targets
+            elif isinstance(n, (ast.AugAssign, ast.AnnAssign)):
+                tg = [n.target]
+            elif isinstance(n, (ast.For, ast.comprehension)):
+                tg = [n.target]
+            elif isinstance(n, ast.NamedExpr):
+                tg = [n.target]
+            elif isinstance(n, ast.With):
+                tg = [i.optional_vars for i in n.items if i.optional_vars is not None]
+            elif isinstance(n, ast.Call):
+                tg = [k.value for k in n.keywords if k.arg == "out"]
+            for t in tg:
+                for x in ([t] if not isinstance(t, (ast.Tuple, ast.List)) else t.elts):
+                    while isinstance(x, (ast.Subscript, ast.Starred)):
+                        x = x.value
+                    out.add(src(x))
+        return out
+
     def run(self, stmts, skip=lambda st: False):
+        """AUDIT: forward substitution over straight-line assignments.  A statement that is not modelled (augmented / tuple /
+        subscript stores, loops, conditionals, try, calls with out=) does not bind anything, but a value tracked so far that it may
+        CHANGE is forgotten (None, with the reason under '<undecided>key') instead of being kept stale."""
         for st in stmts:
             if skip(st):
                 continue
-            if isinstance(st, ast.Assign) and len(st.targets) == 1:
-                t = st.targets[0]
-                key = src(t)
-                if isinstance(t, ast.Subscript) and isinstance(t.slice, ast.Slice) and t.slice.lower is None and t.slice.upper is None:
-                    key = src(t.value)       # X[:] = expr
-                elif isinstance(t, ast.Subscript):
-                    continue
-                try:
-                    self.env[key] = self.ev(st.value)
-                except Undecided as e:
-                    self.env[key] = None
-                    self.env["<undecided>" + key] = str(e)
+            if isinstance(st, ast.AnnAssign) and st.value is not None and isinstance(st.target, (ast.Name, ast.Attribute)):
+                st = ast.copy_location(ast.Assign(targets=[st.target], value=st.value), st)
+            if isinstance(st, ast.Assign) and all(isinstance(t, (ast.Name, ast.Attribute)) or
+                                                  (isinstance(t, ast.Subscript) and isinstance(t.slice, ast.Slice) and t.slice.lower is None
+                                                   and t.slice.upper is None and t.slice.step is None) for t in st.targets):
+                for c_ in ast.walk(st.value):
+                    if isinstance(c_, ast.Call):
+                        for k_ in c_.keywords:
+                            if k_.arg == "out":
+                                x_ = k_.value
+                                while isinstance(x_, ast.Subscript):
+                                    x_ = x_.value
+                                self._forget(src(x_), f"written through out= in `{src(st)[:50]}`")
+                for t in st.targets:
+                    key = src(t)
+                    if isinstance(t, ast.Subscript):
+                        key = src(t.value)       # X[:] = expr
+                    try:
+                        self.env[key] = self.ev(st.value)
+                        self.env.pop("<undecided>" + key, None)
+                    except Undecided as e:
+                        self.env[key] = None
+                        self.env["<undecided>" + key] = str(e)
             elif isinstance(st, ast.With):
+                for i_ in st.items:
+                    if i_.optional_vars is not None:
+                        for x in ast.walk(i_.optional_vars):
+                            if isinstance(x, (ast.Name, ast.Attribute)):
+                                self._forget(src(x), "bound by a with statement")
                 self.run(st.body, skip)
+            elif isinstance(st, ast.AugAssign) and isinstance(st.target, (ast.Name, ast.Attribute)):
+                key = src(st.target)
+                if key in self.env and self.env[key] is not None and not callable(self.env[key]):
+                    try:
+                        new = ast.copy_location(ast.BinOp(left=st.target, op=st.op, right=st.value), st)
+                        ast.fix_missing_locations(new)
+                        self.env[key] = self.ev(new)
+                    except Undecided as e:
+                        self.env[key] = None
+                        self.env["<undecided>" + key] = str(e)
+            elif isinstance(st, (ast.If, ast.For, ast.While, ast.Try)):
+                # AUDIT (contract with the callers, who screen for it - e.g. C10 F6-lagrange-geometry): run() gives the formulas of
+                # the UNCONDITIONAL straight-line part; names re-bound inside a compound statement keep that value and are listed
+                # under '<rebound>name' so that a caller can tell
+                for key in self._stores(st):
+                    if key in self.env:
+                        self.env["<rebound>" + key] = f"re-bound inside `{src(st)[:50]}`"
+            else:
+                for key in self._stores(st):
+                    self._forget(key, f"changed by `{src(st)[:50]}`, a statement the element-wise model does not follow")
+                if isinstance(st, ast.Expr) and isinstance(st.value, ast.Call) and isinstance(st.value.func, ast.Attribute):
+                    # a method called on a tracked value for its effect (x.sort(), x.fill(..), x.resize(..))
+                    self._forget(src(st.value.func.value), f"`{src(st)[:50]}` may change it in place")
